@@ -78,6 +78,10 @@ TWINS = [
     ("schema.list(schema.int)", "[1, 1, 1]"), ("schema.list(schema.str)", "['a', 'a']"),
     ("schema.list(schema.any(schema.str, schema.bytes))", "['a', b'a']"),
     ("schema.dict({'a': schema.any(schema.int, schema.float), 'b': schema.any(schema.int, schema.float)})", "{'a': 1, 'b': 1.0}"),
+    # a float that already has a declared value AND bounds, substituted with a value inside the comparison tolerance
+    ("schema.float(1000.0).min(0.0)", "1000.0 * (1 + 0.9e-9)"), ("schema.float(2.5).max(10.0)", "2.5 * (1 - 0.9e-9)"),
+    ("schema.dict({'x': schema.float(1000.0).min(0.0).max(2000.0)})", "{'x': 1000.0000009}"),
+    ("schema.list(schema.float(0.5).min(0.0))", "[0.5, 0.5 * (1 + 0.9e-9)]"), ("schema.float(1000.0).precision(3).max(1e6)", "1000.0004"),
     # placeholders meeting length bounds / untyped containers: the result must stay usable
     ("schema.list(schema.int).len(2, ...)", "[1, ...]"), ("schema.list(schema.int).len(3, 5)", "[..., 1, 2]"),
     ("schema.list(schema.int).len(2)", "[1, ...]"), ("schema.list(schema.int).len(2)", "[1, 2, 3, ...]"),
